@@ -233,6 +233,30 @@ def consistency(g, label: str = "consistency") -> None:
             ok = (ky, kx) == tuple(g.dimensions) and np.allclose(cx.values, X, rtol=0, atol=wtol(g, X)) and np.allclose(cy.values, Y, rtol=0, atol=wtol(g, Y))
             ok = ok and cx.resolution == a and cy.resolution == e
             mon.check(bool(ok), label + ".coordinates", lambda: wit({"x": cx.values[:3], "y": cy.values[:3], "dims": [ky, kx]}), key="coordinates", cls=fam, sig=sig)
+            # what the caller does with the label arrays is the caller's business (shift centres to edges in place, ...): neither this box asked again, nor an equal box
+            # built from scratch, nor a neighbour sharing an axis may show the scribble
+            if ok and len(_seen_consistency) % 3 == 0:
+                try:
+                    if cx.values.flags.writeable:
+                        cx.values[...] = cx.values - abs(a) / 2 + 12345.0
+                    if cy.values.flags.writeable:
+                        cy.values[...] = cy.values * 0 - 777.0
+                except Exception:  # noqa: BLE001 - read-only labels are a fine answer too
+                    pass
+                from odc.geo.geobox import GeoBox as _GB
+
+                again = [g, _GB(g.shape, g.affine, g.crs), g.bottom if hasattr(g, "bottom") else g, g.right if hasattr(g, "right") else g]
+                bad = None
+                for k_, h in enumerate(again):
+                    c2, ex2 = call(lambda: h.coordinates)
+                    if ex2 is not None:
+                        continue
+                    hx = at(h, np.c_[np.arange(h.shape[1]) + 0.5, np.zeros(h.shape[1])])[:, 0]
+                    hy = at(h, np.c_[np.zeros(h.shape[0]), np.arange(h.shape[0]) + 0.5])[:, 1]
+                    (_, c2y), (_, c2x) = list(c2.items())
+                    if not (np.allclose(c2x.values, hx, rtol=0, atol=wtol(h, hx)) and np.allclose(c2y.values, hy, rtol=0, atol=wtol(h, hy))):
+                        bad = bad or {"which": ["same box asked again", "equal box built from scratch", "bottom neighbour", "right neighbour"][k_], "x": c2x.values[:3], "y": c2y.values[:3], "expected_x": hx[:3], "expected_y": hy[:3]}
+                mon.check(bad is None, label + ".coordinates-after-scribble", lambda: wit(bad), key="coordinates-alias-caller-edits", cls=fam, sig=sig)
 
 
 # --------------------------------------------------------------------------- operation contracts
